@@ -30,6 +30,8 @@ func runC01(c *Ctx) {
 	c01Frames(c)
 	// the streaming decoder reads straight from the source it is given
 	helperNextReaderRules(c, "C01")
+	// ... and the header NextFrame returns is, field by field, the one its decoder produced
+	readerNextFrameRules(c, "C01")
 }
 
 func lengthForm(l fold.Int) int { // 0: 7 bit, 1: 16 bit, 2: 64 bit, -1: straddles
